@@ -55,6 +55,10 @@ pub enum BinOp {
     TypeCast,
     Partial,
     Semi, // ;
+    // conditional forms as plain binary operators (used by C02 only; C01 uses E::Cond)
+    CondTrue,
+    CondFalse,
+    Else,
 }
 
 #[derive(Clone, Copy, Debug, PartialEq, Eq, Hash)]
@@ -183,6 +187,9 @@ impl BinOp {
             TypeCast => "~#",
             Partial => "~",
             Semi => ";",
+            CondTrue => "?>",
+            CondFalse => "!>",
+            Else => "|>",
         }
     }
     pub fn level(self) -> u32 {
@@ -208,11 +215,19 @@ impl BinOp {
             Or => 430,
             Apply | ApplyTo => 550,
             Semi => 990,
+            CondTrue | CondFalse => 700,
+            Else => 800,
         }
     }
     pub fn rtl(self) -> bool {
         self == BinOp::Pair
     }
+}
+
+thread_local! {
+    /// C02 prints a suffix-operator expression as a complete left operand without parentheses (what the table
+    /// dictates); the other properties parenthesise it because the implementation's parser needs that
+    pub static IDEAL_SUFFIX: std::cell::Cell<bool> = const { std::cell::Cell::new(false) };
 }
 
 pub const LV_VALUE: u32 = 10;
@@ -242,7 +257,7 @@ impl E {
     fn rs(&self) -> u32 {
         match self {
             E::Pre(o, x) => o.level().max(x.rs()),
-            E::Suf(o, _) => o.level(),
+            E::Suf(o, _) => if IDEAL_SUFFIX.with(|f| f.get()) { LV_VALUE } else { o.level() },
             E::Bin(o, _, r) => o.level().max(r.rs()),
             E::Prop(_, _) => 30,
             E::SpaceList(v) => LV_LIST.max(v.last().map(|x| x.rs()).unwrap_or(0)),
@@ -265,7 +280,7 @@ impl E {
             E::SideAfter(v, _) => v.rs(),
             E::SideBefore(_, v) => v.rs(),
             E::PrefixApply(_, x) => LV_FIXAPPLY_PRE.max(x.rs()),
-            E::SuffixApply(_, _) => LV_FIXAPPLY_SUF,
+            E::SuffixApply(_, _) => if IDEAL_SUFFIX.with(|f| f.get()) { LV_VALUE } else { LV_FIXAPPLY_SUF },
             E::InfixApply(_, _, r) => LV_FIXAPPLY_IN.max(r.rs()),
             E::Group(_) | E::Nested(..) => LV_GROUP,
             _ => LV_VALUE,
